@@ -130,6 +130,8 @@ def run(ctx):
              'value; every position of a short root tuple); under O1 with the hint of one item; an empty collection yields '
              'the bare factory')
     _items_cover(ctx)
+    from .c14 import repr_dedup
+    repr_dedup(ctx, 'C20.R6')
 
 
 def _derived_from(fn, root: str) -> set:
